@@ -4,5 +4,6 @@ CONSTANTS
   MaxSpurious = 1000000
   FORWARD_WAKER = TRUE
   READY_DRAINS = TRUE
+  FILTER_MODE = "filter"
 INVARIANT TraceInv
 CHECK_DEADLOCK FALSE
